@@ -12,6 +12,7 @@ from . import c02, c03
 
 SCRIBBLE = True
 THOROUGH_SCALE = 1
+COLD_ORDERS = 3
 REVISIT_PER_KIND = 3          # the fault enumeration of one packet is expensive; three packets of every kind come back at the end
 ID = "C04"
 LEVEL = "fault_enumeration"
@@ -103,6 +104,7 @@ def k_pus(ctx, which, raw, ts_len=0, full=False, fault=None, light=False):
     doc = documented_errors()
     it = [(int(fault, 16), ("replay", 8 * n - int(fault, 16).bit_length(), 0))] if fault else faults(n, excluded, ctx.rng, full, p, light)
     cnt = 0
+    n_standalone = 0
     for mask, (ftype, pos, L) in it:
         cnt += 1
         q = _apply(p, mask)
@@ -114,14 +116,17 @@ def k_pus(ctx, which, raw, ts_len=0, full=False, fault=None, light=False):
         else:
             ctx.table(f"faults_by_region/{which}", _region_pus(n, pos, sec_len))
             ctx.table("rejection_class", f"{which}:{type(res).__name__}")
-        if check_pus_crc(q) is not False:
-            ctx.fail("standalone_check_agrees", "corrupted_packet_passes_check_pus_crc", which, dict(base, fault=hex(mask)))
+        # the stand-alone check builds its CRC table on every call (20 ms per 60 calls): every fault in the thorough tier, every 3rd in the quick tier
+        if full or cnt % 3 == 0 or ftype != "burst":
+            n_standalone += 1
+            if check_pus_crc(q) is not False:
+                ctx.fail("standalone_check_agrees", "corrupted_packet_passes_check_pus_crc", which, dict(base, fault=hex(mask)))
         if len(ctx.distinct) < 300_000:
             ctx.distinct.add(hash((p, mask)) & 0xFFFFFFFFFFFFFFFF)
     m = ctx.monitors.setdefault("fault_rejected", {"evaluations": 0, "violations": 0})
     m["evaluations"] += cnt
     m2 = ctx.monitors.setdefault("standalone_check_agrees", {"evaluations": 0, "violations": 0})
-    m2["evaluations"] += cnt
+    m2["evaluations"] += n_standalone
     ctx.evaluations += cnt
     ctx.case(f"packet/{which}" + (f"/ts={ts_len}" if which == "tm" else ""), None, sample={"raw": raw, "faults": cnt})
     ctx.table("packets_fully_enumerated", which)
@@ -389,7 +394,7 @@ def run(ctx):
                     ctx.check("trailer_is_crc", crc16(bytes(octets)[:-2]).to_bytes(2, "big") == bytes(octets)[-2:], "packed_trailer_wrong", f"tm/{name}/crc_register_{target:04x}_after_{where}_header",
                               {"k": "note", "fields": list(g)}, observed=bytes(octets))
         for kind in C.KINDS8:
-            for where in ("header", "offset"):
+            for where in ("header", "offset", "whole"):
                 cfg = C.rand_cfg(r, crc=1, segctrl=(kind == "file_data"), seqw=r.choice((2, 4, 8)))
                 p = C.rand_params(r, kind, cfg, rich=False)
                 if kind == "file_data":
